@@ -1,9 +1,10 @@
 #!/bin/sh
 # dev helper: verify every delivered seed; log to /tmp/wt/verify.log
-for id in C01 C02 C03 C04 C05 C06 C07 C08 C10 C11 C12 C13 C14 C15 C16 C17 C18 C19 C20; do
-  for v in a b; do
-    [ -f /tmp/wt/out/$id/$v.diff ] || continue
-    /verif/devtools/verify_seed.sh $id $v > /tmp/wt/out/$id/verify_$v.log 2>&1
-    tail -1 /tmp/wt/out/$id/verify_$v.log
+O=${OUTDIR:-/tmp/wt2/out}
+for id in ${IDS:-C01 C02 C03 C04 C05 C06 C07 C08 C09 C10 C11 C12 C13 C14 C15 C16 C17 C18 C19 C20}; do
+  for v in a b c; do
+    [ -f $O/$id/$v.diff ] || continue
+    /verif/devtools/verify_seed.sh $id $v > $O/$id/verify_$v.log 2>&1
+    tail -1 $O/$id/verify_$v.log
   done
 done
